@@ -1,5 +1,6 @@
 """C06 — Operator string stays a consistent periodic world-line configuration."""
 from checks import big_scale
+from checks import fault_inj
 from checks import full_step
 from checks import extra_audits
 from checks import api_cov
@@ -65,4 +66,7 @@ def main(ck):
     api_cov.run(ck, "c06")   # otherwise unexercised public API, model-free oracles of this property
     scale_inv.run(ck, "c03")   # power-of-two unit change: identical trajectory, energies exactly scaled (model-free twin oracle)
     big_scale.run(ck, "longstring")   # large-scale regime (>65536 bonds/ops/slots, release semantics): model-free oracles of the property statements
+    fault_inj.run(ck, "ising")   # fault injection: a public call that panics part-way (bad beta, failing rng/Hamiltonian/callback) under catch_unwind; a surviving object must satisfy the property oracles
+    fault_inj.run(ck, "generic")   # fault injection: a public call that panics part-way (bad beta, failing rng/Hamiltonian/callback) under catch_unwind; a surviving object must satisfy the property oracles
+    fault_inj.run(ck, "tempering")   # fault injection: a public call that panics part-way (bad beta, failing rng/Hamiltonian/callback) under catch_unwind; a surviving object must satisfy the property oracles
     return ck.finish(RULE)
